@@ -504,6 +504,20 @@ funclit 1 in (dht *IpfsDHT) PutValue(ctx context.Context, key string, value []by
   ghost at entry: $root = ctxRoot(ctx)
   ghost at before call(PutValue): assert($arg1 == p && $arg2 == rec); assert(ctxRoot($arg0) == $root)
 
+# the correction record is the best value under the searched key, sent to each
+# listed peer (stored locally when that peer is this node)
+func (dht *IpfsDHT) updatePeerValues(ctx context.Context, key string, val []byte, peers []peer.ID)
+  props C06
+  modifies *
+  ghost at before call(MakePutRecord): assert($arg0 == key && $arg1 == val)
+  ghost at go(func): assert($arg0 == p && fixupRec != nil && str(fixupRec.Key) == key && fixupRec.Value == val)
+
+funclit 0 in (dht *IpfsDHT) updatePeerValues(ctx context.Context, key string, val []byte, peers []peer.ID)
+  props C06
+  requires fixupRec != nil && str(fixupRec.Key) == key && dht.valueStore != nil
+  ghost at before call(putLocal): assert($arg1 == key && $arg2 == fixupRec)
+  ghost at before call(PutValue): assert($arg1 == p && $arg2 == fixupRec)
+
 func (dht *IpfsDHT) SearchValue(ctx context.Context, key string, opts ...routing.Option) (ch <-chan []byte, err error)
   props C03
   modifies *
